@@ -21,6 +21,7 @@ from .resolver_map import ResolverMap
 from .scalars import SPECIFIED_SCALAR_TYPES
 from .types import (
     Directive,
+    Field,
     GraphQLAbstractType,
     GraphQLType,
     InputObjectType,
@@ -542,16 +543,24 @@ class Schema(ResolverMap):
         self._is_valid = None
 
     def clone(self) -> "Schema":
+        # All known types and directives are carried over, including the ones
+        # which are not reachable from the root types.
         cloned = Schema(
             query_type=self.query_type,
             mutation_type=self.mutation_type,
             subscription_type=self.subscription_type,
+            types=list(self.types.values()),
+            directives=[
+                d
+                for d in self.directives.values()
+                if d not in SPECIFIED_DIRECTIVES
+            ],
             nodes=self.nodes,
         )
 
         cloned._replace_types_and_directives(
             types={
-                t.name: copy.copy(t)
+                t.name: _clone_type(t)
                 for t in self.types.values()
                 if (
                     t not in SPECIFIED_SCALAR_TYPES
@@ -559,7 +568,7 @@ class Schema(ResolverMap):
                 )
             },
             directives={
-                d.name: copy.copy(d)
+                d.name: _clone_directive(d)
                 for d in self.directives.values()
                 if d not in SPECIFIED_DIRECTIVES
             },
@@ -568,6 +577,40 @@ class Schema(ResolverMap):
         cloned.merge_resolvers(self)
 
         return cloned
+
+
+def _clone_argument(argument: Any) -> Any:
+    return copy.copy(argument)
+
+
+def _clone_field(field: Field) -> Field:
+    cloned = copy.copy(field)
+    cloned.arguments = [_clone_argument(a) for a in field.arguments]
+    return cloned
+
+
+def _clone_directive(directive: Directive) -> Directive:
+    cloned = copy.copy(directive)
+    cloned.arguments = [_clone_argument(a) for a in directive.arguments]
+    cloned.argument_map = {a.name: a for a in cloned.arguments}
+    return cloned
+
+
+def _clone_type(type_: NamedType) -> NamedType:
+    # Members which refer to other types (fields, arguments, input fields,
+    # interfaces, union members) are copied as well: they are modified in place
+    # when the clone's type references get fixed and must not be shared with
+    # the original schema.
+    cloned = copy.copy(type_)
+    if isinstance(type_, (ObjectType, InterfaceType)):
+        cloned.fields = [_clone_field(f) for f in type_.fields]  # type: ignore
+    if isinstance(type_, ObjectType):
+        cloned.interfaces = list(type_.interfaces)  # type: ignore
+    elif isinstance(type_, InputObjectType):
+        cloned.fields = [copy.copy(f) for f in type_.fields]  # type: ignore
+    elif isinstance(type_, UnionType):
+        cloned.types = list(type_.types)  # type: ignore
+    return cloned
 
 
 def _build_directive_map(maybe_directives: List[Any]) -> Dict[str, Directive]:
